@@ -885,30 +885,48 @@ def _norm_scalar_index(k, n):
     return k
 
 
+def _valid(cond):
+    """cond (SymBool / bool) holds on the current path"""
+    if isinstance(cond, bool):
+        return cond
+    if not core.active():
+        return False
+    c = ctx()
+    e = core.as_z3_bool(cond)
+    c.instantiate(e)
+    r, _ = c._check(z3.Not(e))
+    return r == z3.unsat
+
+
 def _norm_slice(s, n):
     if s.step not in (None, 1):
         raise Unsupported("slice with step")
     if s.start is None and s.stop is None:
         return None, None
-    start = 0 if s.start is None else s.start
-    stop = n if s.stop is None else s.stop
 
     def clamp(v):
         if isinstance(v, int) and v < 0:
             v = n + v
             if isinstance(v, int):
                 return max(v, 0)
-            return core.site(v >= 0, v, 0)
+            return v if _valid(v >= 0) else core.site(v >= 0, v, 0)
         if isinstance(v, int) and isinstance(n, int):
             return min(v, n)
-        # symbolic: min(v, n)
+        if isinstance(v, int) and v == 0:
+            return 0
+        # symbolic: min(v, n), resolved when the path decides it
+        if _valid(v <= n):
+            return v
+        if _valid(v >= n):
+            return n
         return core.site(v <= n, v, n)
 
-    start, stop = clamp(start), clamp(stop)
+    start = 0 if s.start is None else clamp(s.start)
+    stop = n if s.stop is None else clamp(s.stop)
     # empty if stop < start
     if isinstance(start, int) and isinstance(stop, int):
         stop = max(stop, start)
-    else:
+    elif not _valid(stop >= start):
         stop = core.site(stop >= start, stop, start)
     return start, stop
 
